@@ -345,6 +345,54 @@ impl Rw {
         let name = self.fresh("tp");
         let mut body_items = items.clone();
         body_items[j] = Node::atom("$zzp");
+        // optionally a conditional (single or nested pair) around an action nested in the body
+        let mut nested_cond = false;
+        if t.chance(1, 3) {
+            // any action nested at any depth in the body (not the parameter's own position)
+            fn desc(n: &Node, path: Vec<usize>, out: &mut Vec<Vec<usize>>) {
+                for rel in action_children(n) {
+                    let mut c = n;
+                    let mut ok = true;
+                    for i in &rel {
+                        match c.as_list().and_then(|l| l.get(*i)) {
+                            Some(x) => c = x,
+                            None => {
+                                ok = false;
+                                break;
+                            }
+                        }
+                    }
+                    if ok && c.as_atom() != Some("reverse-release-order") {
+                        let mut p = path.clone();
+                        p.extend(rel.iter().copied());
+                        out.push(p.clone());
+                        desc(c, p, out);
+                    }
+                }
+            }
+            let mut rels: Vec<Vec<usize>> = vec![];
+            desc(&Node::List(body_items.clone()), vec![], &mut rels);
+            rels.retain(|r| r[0] != j);
+            if !rels.is_empty() {
+                let rel = rels[t.pick(rels.len())].clone();
+                let mut tmp = vec![Node::List(body_items.clone())];
+                let mut path = vec![0usize];
+                path.extend(rel.iter().copied());
+                if let Some(x) = node_at(&tmp, &path).cloned() {
+                    let (l, r) = match &arg {
+                        Node::Atom(a) if !a.starts_with('$') => (Node::atom("$zzp"), arg.clone()),
+                        _ => (Node::atom("zz"), Node::atom("zz")),
+                    };
+                    let inner = if t.chance(1, 2) { Node::list(vec![Node::atom("if-equal"), r.clone(), r.clone(), x]) } else { x };
+                    let wrapped = Node::list(vec![Node::atom("if-equal"), l, r, inner]);
+                    *node_at_mut(&mut tmp, &path).unwrap() = wrapped;
+                    if let Node::List(b) = tmp.remove(0) {
+                        body_items = b;
+                    }
+                    nested_cond = true;
+                }
+            }
+        }
         let mut body = Node::List(body_items);
         let mut kind = "template";
         if let Node::Atom(a) = &arg {
@@ -354,6 +402,9 @@ impl Rw {
             }
         } else {
             kind = "template-list-arg";
+        }
+        if nested_cond {
+            kind = "template-nested-conditional";
         }
         let def = Node::list(vec![Node::atom("deftemplate"), Node::atom(&name), Node::list(vec![Node::atom("zzp")]), body]);
         let call = Node::list(vec![Node::atom(if t.chance(1, 2) { "template-expand" } else { "t!" }), Node::atom(&name), arg]);
@@ -524,6 +575,7 @@ fn judge_case(c: &TCase) -> Verdict {
             "template" => "rw:template",
             "template-if-equal" => "rw:template-if-equal",
             "template-list-arg" => "rw:template-list-arg",
+            "template-nested-conditional" => "rw:template-nested-conditional",
             "include" => "rw:include",
             "platform" => "rw:platform",
             _ => "rw:deflayermap",
@@ -618,7 +670,7 @@ impl TypedProp for C16 {
     fn info(&self) -> PropInfo {
         PropInfo {
             level: "exploration",
-            rule: "configs: the whole-grammar generator (plausible profile, and the acceptance-boundary profile for the 'accepted iff' direction). Rewrites, 1-6 per case, at sites chosen by the tape: an action (deflayer cell, defalias value, or an action nested in tap-hold / multi / one-shot / tap-dance / fork / switch) named with defalias; an atom or list inside an action named with defvar (directly, through a second variable, built with concat); an action wrapped into a one-parameter deftemplate and expanded with template-expand / t!, with an atom or a list as argument, optionally under a true if-equal; a top-level form moved into an included file; a top-level form wrapped in (platform (linux ..)); a deflayer expressed as the deflayermap listing every defsrc key. Oracle (metamorphic, both texts through the real parser): acceptance agrees; when accepted the layer tables, key outputs, mapped keys, overrides, sequences, options, virtual keys and chords are identical and three random histories give identical timestamped output. Non-trivial: >= 2 different rewrite kinds applied. Distinct: hash of the case.".into(),
+            rule: "configs: the whole-grammar generator (plausible profile, and the acceptance-boundary profile for the 'accepted iff' direction). Rewrites, 1-6 per case, at sites chosen by the tape: an action (deflayer cell, defalias value, or an action nested in tap-hold / multi / one-shot / tap-dance / fork / switch) named with defalias; an atom or list inside an action named with defvar (directly, through a second variable, built with concat); an action wrapped into a one-parameter deftemplate and expanded with template-expand / t!, with an atom or a list as argument, optionally under a true if-equal and / or with a true if-equal (or a nested pair of them) around an action nested in the body; a top-level form moved into an included file; a top-level form wrapped in (platform (linux ..)); a deflayer expressed as the deflayermap listing every defsrc key. Oracle (metamorphic, both texts through the real parser): acceptance agrees; when accepted the layer tables, key outputs, mapped keys, overrides, sequences, options, virtual keys and chords are identical and three random histories give identical timestamped output. Non-trivial: >= 2 different rewrite kinds applied. Distinct: hash of the case.".into(),
             assumptions: vec!["rewrites are applied only where the documentation allows the construct (variables inside actions, aliases as actions, include/platform at top level)".into()],
             extra: BTreeMap::new(),
         }
@@ -631,7 +683,7 @@ impl TypedProp for C16 {
             },
             exhaustive: false,
             distinct_by_construction: false,
-            required_classes: vec!["both-accepted", "both-rejected", "rw:alias", "rw:var", "rw:var-list", "rw:template", "rw:include", "rw:platform", "rw:deflayermap", "two-or-more-rewrite-kinds"],
+            required_classes: vec!["both-accepted", "both-rejected", "rw:alias", "rw:var", "rw:var-list", "rw:template", "rw:template-nested-conditional", "rw:include", "rw:platform", "rw:deflayermap", "two-or-more-rewrite-kinds"],
             hang_secs: 60,
         }
     }
